@@ -320,9 +320,13 @@ func runRecord(path string, seed int64, n, maxEvents, deep int, sum *tl.Summary)
 	var longs []long
 	pick := func(k int) int { return (int(seed)*5 + k*3) % len(forks) }
 	longs = append(longs,
-		long{"floodloop", &ek.Program{Code: ek.FloodLoop()}, 100000, pick(0)},
-		long{"growloop", &ek.Program{Code: ek.GrowLoop(32)}, 60000, pick(1)},
+		long{"flood-1025", &ek.Program{Code: ek.PushFlood(r, 1025)}, 100000, pick(0)},
+		long{"growloop", &ek.Program{Code: ek.GrowLoop(32)}, 7000, pick(1)},
 		long{"growloop-wide", &ek.Program{Code: ek.GrowLoop(3000)}, 200000, pick(2)},
+		// the call depth limit, reached before EIP-150 (Homestead: DELEGATECALL exists); the deepest
+		// frame tries CALL, CALLCODE, DELEGATECALL and CREATE there
+		long{"depth-limit", &ek.Program{Code: ek.DepthProbe()}, 400_000_000, ek.Homestead},
+		long{"recurse-create", &ek.Program{Code: ek.CreateRecursion(), Create: true}, 5_000_000, pick(5)},
 	)
 	for k := 0; k < deep; k++ {
 		ops := []vm.OpCode{vm.CALL, vm.CALLCODE, vm.DELEGATECALL, vm.STATICCALL}
@@ -334,10 +338,13 @@ func runRecord(path string, seed int64, n, maxEvents, deep int, sum *tl.Summary)
 		if op == vm.STATICCALL && fi < ek.Byzantium {
 			fi = ek.Byzantium
 		}
-		// before EIP-150 all gas is forwarded: the depth limit itself is reached
-		longs = append(longs, long{"recurse-" + op.String(), &ek.Program{Code: ek.SelfRecursion(op)}, 3_000_000, fi})
-		longs = append(longs, long{"recurse-depthlimit", &ek.Program{Code: ek.SelfRecursion(vm.CALL)}, 200_000_000, (int(seed) + k) % 2})
-		longs = append(longs, long{"recurse-create", &ek.Program{Code: ek.CreateRecursion(), Create: true}, 5_000_000, pick(5 + k)})
+		// with the 63/64 rule the recursion ends by gas exhaustion a few hundred frames deep
+		longs = append(longs, long{"recurse-" + op.String(), &ek.Program{Code: ek.SelfRecursion(op)}, 600_000, fi})
+	}
+	// boundary matrix of the memory-touching instructions, under a seeded rule set from Cancun on (MCOPY exists)
+	for i, code := range ek.MemoryMatrix() {
+		fi := ek.Cancun + (int(seed)+i)%(len(forks)-ek.Cancun)
+		longs = append(longs, long{"memory-matrix", &ek.Program{Code: code, Helpers: map[common.Address][]byte{ek.HelperA: {1, 2, 3, 4, 5, 6, 7, 8}}}, 300000, fi})
 	}
 	saved := rec.MaxEvents
 	rec.MaxEvents = 0 // the long runs are logged completely
